@@ -130,15 +130,10 @@ Bad_C06(pre, ev, post) ==
   IF a = {} THEN {}
   ELSE IF DiffFields(ApplyX(pre, ev, TRUE, TRUE), post, NoDirty) = {} THEN {} ELSE a
 
-\* C12: everything but dirty; DECCOLM "erases the screen" - the statement does not say with which rendition
-\* (that is C07's business), so after a DECCOLM switch the grid is compared by cell text only
-TextGrid(s) == [r \in 1..s.L |-> [c \in 1..s.C |-> s.g[r][c].d]]
-Bad_C12(pre, ev, post) ==
-  LET e == Apply(pre, ev) IN
-  IF DECCOLM \in ShiftModes(ev.p, ev.pr)
-    THEN DiffFields(e, post, NoDirty \ {"g"})
-         \cup (IF e.L = post.L /\ e.C = post.C /\ TextGrid(e) = TextGrid(post) THEN {} ELSE {"g"})
-    ELSE DiffFields(e, post, NoDirty)
+\* C12: everything but dirty.  DECCOLM "erases the screen": erasure is what C07 defines (spaces carrying the
+\* current rendition), so the grid is compared in full - an earlier version compared cell texts only and then
+\* missed a DECCOLM that erased the old columns only (seeded change C12c).
+Bad_C12(pre, ev, post) == DiffFields(Apply(pre, ev), post, NoDirty)
 
 \* C15: everything, including "every row dirty"
 Bad_C15(pre, ev, post) ==
